@@ -90,11 +90,15 @@ func (s *tcpServer) down() {
 // dialRecorder records the dial hooks of the client peer.
 type dialRecorder struct {
 	first, redials int32
+	rejectRedial   int32 // when set, every redial attempt is refused by the hook (e.g. a refused re-authentication)
 }
 
 func (d *dialRecorder) Name() string { return "c13dial" }
 func (d *dialRecorder) PostDial(s erpc.PreSession, isRedial bool) *erpc.Status {
 	if isRedial {
+		if atomic.LoadInt32(&d.rejectRedial) != 0 {
+			return erpc.NewStatus(erpc.CodeUnauthorized, "re-authentication refused", "c13")
+		}
 		atomic.AddInt32(&d.redials, 1)
 	} else {
 		atomic.AddInt32(&d.first, 1)
@@ -141,9 +145,9 @@ func genC13(t *rapid.T) c13Case {
 	c := c13Case{Budget: rapid.SampledFrom([]int32{1, 3, -1}).Draw(t, "budget"), SetID: rapid.Bool().Draw(t, "setid"), Callers: rapid.IntRange(1, 4).Draw(t, "callers"), Secure: rapid.IntRange(0, 2).Draw(t, "secure") == 0}
 	n := rapid.IntRange(1, 5).Draw(t, "nactions")
 	for i := 0; i < n; i++ {
-		a := rapid.SampledFrom([]string{"kill-idle", "kill-idle", "kill-during-call", "calls", "outage-short", "outage-exhaust", "traffic-during-outage", "traffic-during-outage"}).Draw(t, "action")
+		a := rapid.SampledFrom([]string{"kill-idle", "kill-idle", "kill-during-call", "calls", "outage-short", "outage-exhaust", "hook-rejects-redials", "traffic-during-outage", "traffic-during-outage"}).Draw(t, "action")
 		c.Actions = append(c.Actions, a)
-		if a == "outage-exhaust" && c.Budget > 0 {
+		if (a == "outage-exhaust" || a == "hook-rejects-redials") && c.Budget > 0 {
 			break // the session ends there
 		}
 	}
@@ -387,6 +391,44 @@ func runC13(c c13Case) []string {
 				checkIdentity("after a short outage")
 				okCall("after a short outage")
 			}
+		case "hook-rejects-redials":
+			// the server stays reachable but the dial hook refuses every redial attempt
+			if c.Budget < 0 {
+				continue // with an unlimited budget this never ends by itself
+			}
+			atomic.StoreInt32(&rec.rejectRedial, 1)
+			ts.kill()
+			if !vt.WaitClosed(sess.CloseNotify()) {
+				failf("%s", vt.Hang(fmt.Sprintf("close notification after every redial attempt (budget %d) was refused by the dial hook", c.Budget)))
+				break
+			}
+			ended = true
+			vt.WaitUntilFor(2*time.Second, func() bool { _, ok := cli.GetSession(wantID); return !ok })
+			if _, ok := cli.GetSession(wantID); ok {
+				failf("the session ended by refused redials is still listed under %q", wantID)
+			}
+			var later erpc.CallCmd
+			if !vt.Returns(func() {
+				later = sess.AsyncCall(route, &LibArg{Rid: "later-refused", Act: "ret"}, new(LibRes), make(chan erpc.CallCmd, 1), secureSetting...)
+			}) {
+				failf("%s", vt.Hang("return of AsyncCall on a session that ended because its redials were refused"))
+				break
+			}
+			if !vt.WaitClosed(later.Done()) {
+				failf("%s", vt.Hang("completion of a call issued after the session ended because its redials were refused"))
+				break
+			}
+			if later.StatusOK() || !isConnErr(later.Status()) {
+				failf("a call issued after the session ended (redials refused by the hook) completed with %v, want a connection error", later.Status())
+			}
+			var pst *erpc.Status
+			if !vt.Returns(func() { pst = sess.Push(route, &LibArg{Rid: "later-push"}) }) {
+				failf("%s", vt.Hang("return of Push on a session that ended because its redials were refused"))
+				break
+			}
+			if pst.OK() {
+				failf("a push on the ended session succeeded")
+			}
 		case "outage-exhaust":
 			if c.Budget < 0 {
 				// unlimited budget: a long outage must NOT end the session
@@ -435,7 +477,13 @@ func runC13(c c13Case) []string {
 			}
 			// later calls fail with a connection error after at most one further bounded round
 			start := time.Now()
-			later := sess.AsyncCall(route, &LibArg{Rid: "later", Act: "ret"}, new(LibRes), make(chan erpc.CallCmd, 1))
+			var later erpc.CallCmd
+			if !vt.Returns(func() {
+				later = sess.AsyncCall(route, &LibArg{Rid: "later", Act: "ret"}, new(LibRes), make(chan erpc.CallCmd, 1))
+			}) {
+				failf("%s", vt.Hang("return of AsyncCall on a session that ended after exhausting its redial budget"))
+				break
+			}
 			if !vt.WaitClosed(later.Done()) {
 				failf("%s", vt.Hang("completion of a call issued after the session ended"))
 				break
@@ -480,7 +528,7 @@ func okCallLocked(sess erpc.Session, route string, fails *[]string, n *int) {
 	}
 }
 
-const ruleC13 = "a client session created by Dial over loopback TCP with redial budget 1 / 3 / unlimited (interval 3 ms), optionally with a user-assigned id and optionally with the secure plugin on both peers (every message marked secure), against a harness-owned listener that can kill all connections and refuse new ones; 1-5 generated fault actions: connection killed while idle, killed while a call awaits its (gated) reply, calls and pushes issued while the server is away (unlimited budget), short outage, outage that exhausts the budget (or a long outage with unlimited budget), bursts of concurrent calls; oracle: the pre-write hooks of the dialling peer fire once per message even when it is re-sent after a redial; calls in flight at the loss complete with a connection-class status or their genuine reply (never hang); after the session re-established (redial hook ran again, Health) calls succeed on the same Session value, the user-assigned id is kept and indexed; after exhaustion the close notification fires, the index forgets the session, the pending call and a later call fail with a connection error; unlimited budget survives a long outage; non-trivial = a loss during a call, >=2 losses or exhaustion; distinct by case"
+const ruleC13 = "a client session created by Dial over loopback TCP with redial budget 1 / 3 / unlimited (interval 3 ms), optionally with a user-assigned id and optionally with the secure plugin on both peers (every message marked secure), against a harness-owned listener that can kill all connections and refuse new ones; 1-5 generated fault actions: connection killed while idle, killed while a call awaits its (gated) reply, calls and pushes issued while the server is away (unlimited budget), short outage, outage that exhausts the budget (or a long outage with unlimited budget), a dial hook refusing every redial attempt while the server is reachable, bursts of concurrent calls; oracle: the pre-write hooks of the dialling peer fire once per message even when it is re-sent after a redial; calls in flight at the loss complete with a connection-class status or their genuine reply (never hang); after the session re-established (redial hook ran again, Health) calls succeed on the same Session value, the user-assigned id is kept and indexed; after exhaustion the close notification fires, the index forgets the session, the pending call and a later call fail with a connection error; unlimited budget survives a long outage; non-trivial = a loss during a call, >=2 losses or exhaustion; distinct by case"
 
 func TestC13Redial(t *testing.T) {
 	rec := vt.NewRec(t, "C13", "redial", ruleC13)
